@@ -25,7 +25,7 @@ ASSUMPTIONS = [
 ]
 OUTSIDE = ["sub-sampled regime C(n,3) > max_combos (C15/C18 cover distinctness and reproducibility only)", "IEEE overflow/underflow of exp", "n_thetas > 7"]
 RULE = "paths are the scorer's own case distinctions (max_chunk, plate order, triple order); every mean, variance and distance is a symbolic real on each path."
-BUDGET_S = {"quick": 300, "thorough": 1800}
+BUDGET_S = {"quick": 600, "thorough": 3000}
 PROVE_TIMEOUT_MS = 30000
 SOLVER_TIMEOUT_MS = 10000
 REAL_FIXTURE_VIOLATIONS = True  # a concrete fixture that fails on the real code is reported even if the modelled run fails alike
